@@ -112,6 +112,8 @@ def declared_names(src, name):
 def canonicalise(src, canon):
     """alpha-rename parameters/locals of the functions in `canon` to the canonical names; drop `(void) x;` statements"""
     src = re.sub(r"(?<=[;{}])(\s*)\(\s*void\s*\)\s*[A-Za-z_]\w*\s*;", r"\1", src)
+    # `T x; x = e;`  ->  `T x = e;`   (a declaration split from its initialiser)
+    src = re.sub(r"(?<=[;{}])(\s*)(" + TYPE + r"\s+)([A-Za-z_]\w*)\s*;\s*\3\s*=(?!=)", r"\1\2\3 =", src)
     for fn, want in canon.items():
         r = declared_names(src, fn)
         if not r:
@@ -192,9 +194,28 @@ def extract(tree):
           r"\s*if\s*\(\s*mant->n\s*&&\s*mant->digits\[mant->n\s*-\s*1\]\s*==\s*0\s*\)\s*mant->n--\s*;"
           r"\s*mant->first_digit\s*=\s*\(uint32_t\)\s*\(dividend\s*/\s*divisor\)\s*;", div, "bignat_div tail")
     sh = csrc.func_body(src, "bignat_lshift_n")
-    _need(r"if\s*\(\s*!n\s*\)\s*return\s*;.*memmove\s*\(\s*mant->digits\s*\+\s*n\s*,\s*mant->digits\s*,\s*sizeof\s*\(uint32_t\)\s*\*\s*oldn\s*\)\s*;"
-          r"\s*memset\s*\(\s*mant->digits\s*,\s*0\s*,\s*sizeof\s*\(uint32_t\)\s*\*\s*\(n\s*-\s*1\)\s*\)\s*;"
-          r"\s*mant->digits\[n\s*-\s*1\]\s*=\s*mant->first_digit\s*;\s*mant->first_digit\s*=\s*0\s*;", sh, "bignat_lshift_n")
+    # bignat_lshift_n: the statements after the early return may come in any order that respects the data dependences
+    # (digits[n-1] must be written from first_digit before first_digit is cleared; memmove before both writes into digits)
+    _need(r"^\{\s*if\s*\(\s*!n\s*\)\s*return\s*;", sh, "bignat_lshift_n: early return")
+    pos = {}
+    for key, rx in (("oldn", r"int32_t\s+oldn\s*=\s*mant->n\s*;"),
+                    ("extra", r"bignat_extra\s*\(\s*mant\s*,\s*n\s*\)\s*;"),
+                    ("move", r"memmove\s*\(\s*mant->digits\s*\+\s*n\s*,\s*mant->digits\s*,\s*sizeof\s*\(uint32_t\)\s*\*\s*oldn\s*\)\s*;"),
+                    ("zero", r"memset\s*\(\s*mant->digits\s*,\s*0\s*,\s*sizeof\s*\(uint32_t\)\s*\*\s*\(n\s*-\s*1\)\s*\)\s*;"),
+                    ("put", r"mant->digits\[n\s*-\s*1\]\s*=\s*mant->first_digit\s*;"),
+                    ("clr", r"mant->first_digit\s*=\s*0\s*;")):
+        ms = list(re.finditer(rx, sh))
+        if len(ms) != 1:
+            raise ExtractError("strtod.c: bignat_lshift_n: statement %s not recognised" % key)
+        pos[key] = ms[0].span()
+    for a, b in (("oldn", "extra"), ("extra", "move"), ("move", "zero"), ("move", "put"), ("put", "clr")):
+        if not pos[a][1] <= pos[b][0]:
+            raise ExtractError("strtod.c: bignat_lshift_n: %s must precede %s" % (a, b))
+    rest = sh
+    for k in sorted(pos.values(), reverse=True):
+        rest = rest[:k[0]] + rest[k[1]:]
+    if re.sub(r"\s+", "", rest) != "{if(!n)return;}":
+        raise ExtractError("strtod.c: bignat_lshift_n has statements the model does not mirror: %r" % re.sub(r"\s+", " ", rest)[:120])
     # --- bignat_extract
     ex = csrc.func_body(src, "bignat_extract")
     m = _need(r"top53\s*=\s*\(d2\s*<<\s*\((\w+)\s*-\s*BIGNAT_NBIT\)\)\s*\+\s*\(d3\s*>>\s*\((\w+)\s*\*\s*BIGNAT_NBIT\s*-\s*(\w+)\)\)\s*;"
@@ -281,9 +302,10 @@ def extract(tree):
     c["digitBits"] = width(m1.group(1), "BigNat digit")
     m = _need(r"static\s+void\s+bignat_muladd\s*\(\s*struct\s+BigNat\s*\*\s*mant\s*,\s*(\w+)\s+factor\s*,\s*(\w+)\s+term\s*\)", src, "bignat_muladd signature")
     md = _need(r"static\s+void\s+bignat_div\s*\(\s*struct\s+BigNat\s*\*\s*mant\s*,\s*(\w+)\s+divisor\s*\)", src, "bignat_div signature")
-    if not (m.group(1) == m.group(2) == md.group(1)):
-        raise ExtractError("strtod.c: factor / term / divisor parameter types differ")
-    c["factorBits"] = width(m.group(1), "factor/term/divisor parameter")
+    if m.group(1) != m.group(2):
+        raise ExtractError("strtod.c: factor / term parameter types differ")
+    c["factorBits"] = width(m.group(1), "factor/term parameter")
+    c["divisorBits"] = width(md.group(1), "divisor parameter")
     c["carryBits"] = width(_need(r"(\w+)\s+carry\s*=", mul, "bignat_muladd: carry declaration").group(1), "carry")
     mq = _need(r"(\w+)\s+quotient\s*,\s*remainder\s*;", div, "bignat_div: quotient, remainder declaration")
     c["quotBits"] = width(mq.group(1), "quotient/remainder")
@@ -340,7 +362,7 @@ def render(tree):
     out.append("abbrev digitLookup : Array Nat := #[" + ", ".join(str(v) for v in tab) + "]\n")
     for k in ("nbit", "bigBase", "window", "mantBits", "mantMax", "approxPerDigit", "approxBias", "shamtBase", "shamtDiv",
               "lenLimit", "eeLimit", "eeSat", "intLenLimit", "u64Max", "i64Max", "printDigits",
-              "digitBits", "factorBits", "carryBits", "quotBits", "dividendBits", "top53Bits", "mulBits", "divMulBits",
+              "digitBits", "factorBits", "carryBits", "quotBits", "dividendBits", "top53Bits", "mulBits", "divMulBits", "divisorBits",
               "intMaxDouble", "intMinDoubleAbs", "fixedPrec", "dblDig"):
         out.append("abbrev %s : Nat := %d" % (k, c[k]))
     for k in ("hugeThresh", "tinyThresh"):
